@@ -206,4 +206,242 @@ theorem receive_bitsOf (n : Nat) : ∀ (acc v : Nat) (rest : List Bool),
     omega
 
 
+/-- facts about the category of a value in the encoder's range -/
+theorem cat_facts (value : Int) (h1 : -2047 ≤ value) (h2 : value ≤ 2047) :
+    category (absValueOf value) ≤ 11 ∧
+    (value = 0 → category (absValueOf value) = 0) ∧
+    (value ≠ 0 → 1 ≤ category (absValueOf value)) ∧
+    (-1023 ≤ value → value ≤ 1023 → category (absValueOf value) ≤ 10) ∧
+    Spec.extend (adjOf value % 2 ^ category (absValueOf value)) (category (absValueOf value)) = value := by
+  have ha : absValueOf value < 2048 := by unfold absValueOf; split <;> omega
+  have hs := category_spec (absValueOf value) ha
+  generalize category (absValueOf value) = c at hs
+  obtain ⟨hbl, hc⟩ := hs
+  have habs : (absValueOf value : Int) = if value < 0 then -value else value := by
+    unfold absValueOf; split <;> omega
+  have hadj : (adjOf value : Int) = if value < 0 then value - 1 + 4294967296 else value := by
+    unfold adjOf; split <;> omega
+  simp only [isBitLength, Bool.and_eq_true, decide_eq_true_eq, Bool.or_eq_true, beq_iff_eq] at hbl
+  unfold Spec.extend
+  have hcases : c = 0 ∨ c = 1 ∨ c = 2 ∨ c = 3 ∨ c = 4 ∨ c = 5 ∨ c = 6 ∨ c = 7 ∨ c = 8 ∨ c = 9 ∨ c = 10 ∨ c = 11 := by omega
+  rcases hcases with rfl | rfl | rfl | rfl | rfl | rfl | rfl | rfl | rfl | rfl | rfl | rfl <;>
+    simp at hbl ⊢ <;> (split at habs <;> split at hadj <;> (try split) <;> omega)
+
+
+/-- list view of `huffmanBitWriters[k]` (cheap in the kernel) -/
+def hbwL (k : Nat) : List Nat := (huffmanBitWriters.toList.map Array.toList).getD k []
+
+theorem hbw_getD (k v : Nat) : (huffmanBitWriters.getD k #[]).getD v 0 = (hbwL k).getD v 0 := by
+  rw [getD_toList, getD_toList]
+  congr 1
+  simp only [hbwL, List.getD_eq_getElem?_getD, List.getElem?_map]
+  cases huffmanBitWriters.toList[k]? <;> rfl
+
+theorem dc_symbols : (List.range 12).all (fun c => (hbwL 0).getD c 0 != 0 && (hbwL 2).getD c 0 != 0) = true := by
+  decide +kernel
+
+theorem ac_symbols : (List.range 16).all (fun r => (List.range' 1 10).all (fun s =>
+      (hbwL 1).getD (16 * r + s) 0 != 0 && (hbwL 3).getD (16 * r + s) 0 != 0)) = true ∧
+    (hbwL 1).getD 0 0 ≠ 0 ∧ (hbwL 3).getD 0 0 ≠ 0 ∧ (hbwL 1).getD 0xF0 0 ≠ 0 ∧ (hbwL 3).getD 0xF0 0 ≠ 0 := by
+  decide +kernel
+
+/-- every DC category 0..11 has a code in both DC tables -/
+theorem dc_has_code (base c : Nat) (hb : base = 0 ∨ base = 2) (hc : c ≤ 11) :
+    (huffmanBitWriters.getD base #[]).getD c 0 ≠ 0 := by
+  have := (List.all_eq_true.mp dc_symbols) c (List.mem_range.mpr (by omega))
+  simp only [Bool.and_eq_true, bne_iff_ne, ne_eq] at this
+  rw [hbw_getD]
+  rcases hb with rfl | rfl
+  · exact this.1
+  · exact this.2
+
+/-- every (run, size) with run < 16, 1 ≤ size ≤ 10, and EOB and ZRL, have codes in both AC tables -/
+theorem ac_has_code (base r s : Nat) (hb : base = 0 ∨ base = 2) (hr : r < 16) (hs1 : 1 ≤ s) (hs2 : s ≤ 10) :
+    (huffmanBitWriters.getD (base + 1) #[]).getD (16 * r + s) 0 ≠ 0 := by
+  have := (List.all_eq_true.mp ((List.all_eq_true.mp ac_symbols.1) r (List.mem_range.mpr hr))) s
+    (by rw [List.mem_range'_1]; omega)
+  simp only [Bool.and_eq_true, bne_iff_ne, ne_eq] at this
+  rw [hbw_getD]
+  rcases hb with rfl | rfl
+  · exact this.1
+  · exact this.2
+
+theorem eob_has_code (base : Nat) (hb : base = 0 ∨ base = 2) :
+    (huffmanBitWriters.getD (base + 1) #[]).getD 0 0 ≠ 0 ∧ (huffmanBitWriters.getD (base + 1) #[]).getD 0xF0 0 ≠ 0 := by
+  rw [hbw_getD, hbw_getD]
+  rcases hb with rfl | rfl
+  · exact ⟨ac_symbols.2.1, ac_symbols.2.2.2.1⟩
+  · exact ⟨ac_symbols.2.2.1, ac_symbols.2.2.2.2⟩
+
+/-- ZRL codes: each stands for 16 zero coefficients -/
+theorem decodeAC_zrl (base : Nat) (hb : base = 0 ∨ base = 2) (j : Nat) : ∀ (k fuel : Nat) (X : List Bool),
+    k + 16 * j ≤ 63 → j ≤ fuel →
+    Spec.decodeAC (canonTable (base + 1)) fuel k (zrlBits j (base + 1) ++ X) =
+      match Spec.decodeAC (canonTable (base + 1)) (fuel - j) (k + 16 * j) X with
+      | none => none
+      | some (zs, bits) => some (List.replicate (16 * j) 0 ++ zs, bits) := by
+  induction j with
+  | zero =>
+    intro k fuel X _ _
+    simp only [zrlBits, List.nil_append, Nat.mul_zero, Nat.add_zero, Nat.sub_zero, List.replicate_zero]
+    cases Spec.decodeAC (canonTable (base + 1)) fuel k X with
+    | none => rfl
+    | some p => rfl
+  | succ j ih =>
+    intro k fuel X hk hf
+    obtain ⟨fuel', rfl⟩ : ∃ f, fuel = f + 1 := ⟨fuel - 1, by omega⟩
+    simp only [zrlBits, List.append_assoc]
+    have e2 : fuel' + 1 - (j + 1) = fuel' - j := by omega
+    have e1 : k + 16 * (j + 1) = k + 16 + 16 * j := by omega
+    rw [e2, e1]
+    have hih := ih (k + 16) fuel' X (by omega) (by omega)
+    generalize Spec.decodeAC (canonTable (base + 1)) (fuel' - j) (k + 16 + 16 * j) X = R at hih ⊢
+    rw [Spec.decodeAC]
+    rw [decode16_huffBits (base + 1) 0xF0 (eob_has_code base hb).2]
+    have h16 : k + 16 ≤ 63 := by omega
+    simp only [show (0xF0 : Nat) % 16 = 0 by decide, show (0xF0 : Nat) / 16 = 15 by decide, ↓reduceIte, h16]
+    rw [hih]
+    cases R with
+    | none => rfl
+    | some p =>
+      obtain ⟨zs, bits⟩ := p
+      simp only [Option.some.injEq, Prod.mk.injEq, and_true]
+      rw [← List.append_assoc, List.replicate_append_replicate]
+      congr 2
+      omega
+
+
+theorem combined_sym (r c : Nat) (hr : r < 16) (hc : c < 16) : ((r * 16) ||| c) % 256 = 16 * r + c := by
+  have := Nat.two_pow_add_eq_or_of_lt (i := 4) (b := c) (by simpa using hc) r
+  simp only [show (2 : Nat) ^ 4 = 16 by decide] at this
+  rw [Nat.mul_comm r 16, ← this]
+  omega
+
+/-- one (run, value) pair as written by `emitHuffmanRun` is read back by DECODE + RECEIVE + EXTEND -/
+theorem decode_run (wh r : Nat) (value : Int) (hr : r < 16) (h1 : -2047 ≤ value) (h2 : value ≤ 2047)
+    (hx : (huffmanBitWriters.getD wh #[]).getD (16 * r + category (absValueOf value)) 0 ≠ 0) (rest : List Bool) :
+    Spec.decode16 (canonTable wh) (runBits wh r value ++ rest) =
+      some (16 * r + category (absValueOf value),
+        bitsOf (adjOf value) (category (absValueOf value)) ++ rest) ∧
+    Spec.receive (category (absValueOf value)) 0 (bitsOf (adjOf value) (category (absValueOf value)) ++ rest) =
+      some (adjOf value % 2 ^ category (absValueOf value), rest) := by
+  have hc := (cat_facts value h1 h2).1
+  constructor
+  · unfold runBits
+    rw [combined_sym r _ hr (by omega), List.append_assoc]
+    exact decode16_huffBits wh _ hx _
+  · rw [receive_bitsOf]; simp
+
+/-- F.2.2.2: the AC coefficients written by `encodeACs` are read back by the Spec, position by
+    position: zero runs (ZRL and RRRR), magnitudes, EOB -/
+theorem decodeAC_acBits (base : Nat) (hb : base = 0 ∨ base = 2) (tail : List Bool) (rest : List Int) :
+    ∀ (run k fuel : Nat), rest.length + run + k = 64 → 1 ≤ k → k ≤ 63 → 65 ≤ fuel + k →
+      (∀ ac ∈ rest, -1023 ≤ ac ∧ ac ≤ 1023) →
+      Spec.decodeAC (canonTable (base + 1)) fuel k (acBits base rest run ++ tail) =
+        some (List.replicate run 0 ++ rest, tail) := by
+  induction rest with
+  | nil =>
+    intro run k fuel hlen hk1 hk2 hf _
+    simp only [List.length_nil, Nat.zero_add] at hlen
+    have hrun : run > 0 := by omega
+    obtain ⟨fuel', rfl⟩ : ∃ f, fuel = f + 1 := ⟨fuel - 1, by omega⟩
+    simp only [acBits, hrun, ↓reduceIte]
+    rw [Spec.decodeAC, decode16_huffBits (base + 1) 0 (eob_has_code base hb).1]
+    have : 64 - k = run := by omega
+    simp [this]
+  | cons ac rest ih =>
+    intro run k fuel hlen hk1 hk2 hf hr
+    simp only [List.length_cons] at hlen
+    have hr' : ∀ a ∈ rest, -1023 ≤ a ∧ a ≤ 1023 := fun a ha => hr a (List.mem_cons_of_mem _ ha)
+    have hac := hr ac List.mem_cons_self
+    simp only [acBits]
+    split
+    · rename_i h0
+      subst h0
+      rw [ih (run + 1) k fuel (by omega) hk1 hk2 hf hr']
+      congr 2
+      rw [List.replicate_succ', List.append_assoc]
+      rfl
+    · rename_i hne
+      have cf := cat_facts ac (by omega) (by omega)
+      have hc1 := cf.2.2.1 hne
+      have hc10 := cf.2.2.2.1 hac.1 hac.2
+      rw [List.append_assoc, List.append_assoc]
+      rw [decodeAC_zrl base hb (run / 16) k fuel _ (by omega) (by omega)]
+      obtain ⟨fuel', hfuel⟩ : ∃ f, fuel - run / 16 = f + 1 := ⟨fuel - run / 16 - 1, by omega⟩
+      rw [hfuel, Spec.decodeAC]
+      have hd := decode_run (base + 1) (run % 16) ac (Nat.mod_lt _ (by decide)) (by omega) (by omega)
+        (ac_has_code base _ _ hb (Nat.mod_lt _ (by decide)) hc1 hc10) (acBits base rest 0 ++ tail)
+      rw [hd.1]
+      have e1 : (16 * (run % 16) + category (absValueOf ac)) % 16 = category (absValueOf ac) := by omega
+      have e2 : (16 * (run % 16) + category (absValueOf ac)) / 16 = run % 16 := by omega
+      simp only [e1, e2]
+      have hne0 : ¬ category (absValueOf ac) = 0 := by omega
+      have hle10 : ¬ category (absValueOf ac) > 10 := by omega
+      have hpos : ¬ k + 16 * (run / 16) + run % 16 > 63 := by omega
+      simp only [hne0, hle10, hpos, ↓reduceIte]
+      rw [hd.2]
+      simp only [cf.2.2.2.2]
+      have hrun : 16 * (run / 16) + run % 16 = run := by omega
+      by_cases hlast : k + 16 * (run / 16) + run % 16 = 63
+      · have hrest : rest = [] := by
+          apply List.eq_nil_of_length_eq_zero; omega
+        subst hrest
+        simp only [hlast, ↓reduceIte, acBits, List.nil_append, gt_iff_lt, Nat.lt_irrefl]
+        rw [← List.append_assoc, List.replicate_append_replicate, hrun]
+      · simp only [hlast, ↓reduceIte]
+        rw [ih 0 (k + 16 * (run / 16) + run % 16 + 1) fuel' (by omega) (by omega) (by omega) (by omega) hr']
+        simp only [List.replicate_zero, List.nil_append]
+        rw [← List.append_assoc, List.replicate_append_replicate, hrun]
+
+
+/-- the quantised coefficients of a block in zig-zag order: what the file must hold -/
+def quantisedZZ (q : Quant) (b : Block) : List Int :=
+  div (b.getD 0 0) ((q.getD 0 0 : Nat) : Int) :: (List.range' 1 63).map (quantised q b)
+
+/-- F.2.2.1 + F.2.2.2: one block as written by `encodeBlock` is read back by the Spec's
+    `decodeBlock`, DC prediction included -/
+theorem decodeBlock_blockBits (base : Nat) (hb : base = 0 ∨ base = 2) (q : Quant) (hq : QOK q) (b : Block)
+    (hv : blockIsValid b = true) (pred : Int) (hp : -1024 ≤ pred ∧ pred ≤ 1023) (tail : List Bool) :
+    Spec.decodeBlock (canonTable base) (canonTable (base + 1)) pred (blockBits q pred base b ++ tail) =
+      some (quantisedZZ q b, tail) := by
+  have hq0 := hq 0 (by omega)
+  have hb0 := (blockIsValid_spec b hv).1
+  have hdc := div_range (b.getD 0 0) ((q.getD 0 0 : Nat) : Int) (by omega) (by omega) (by omega) (by omega)
+  have hdc' : -1024 ≤ div (b.getD 0 0) ((q.getD 0 0 : Nat) : Int) ∧ div (b.getD 0 0) ((q.getD 0 0 : Nat) : Int) ≤ 1023 := by omega
+  unfold blockBits quantisedZZ
+  generalize div (b.getD 0 0) ((q.getD 0 0 : Nat) : Int) = dc at hdc' ⊢
+  have hw : wrap16 (dc - pred) = dc - pred := wrap16_id _ (by omega) (by omega)
+  rw [hw]
+  have cf := cat_facts (dc - pred) (by omega) (by omega)
+  have hd := decode_run (base + 0) 0 (dc - pred) (by decide) (by omega) (by omega)
+    (by simpa using dc_has_code base _ hb cf.1)
+    (acBits base ((List.range' 1 63).map (quantised q b)) 0 ++ tail)
+  unfold Spec.decodeBlock
+  rw [List.append_assoc]
+  simp only [Nat.add_zero, Nat.mul_zero, Nat.zero_add] at hd ⊢
+  rw [hd.1]
+  have hle : ¬ category (absValueOf (dc - pred)) > 11 := by omega
+  simp only [hle, ↓reduceIte]
+  rw [hd.2]
+  simp only [cf.2.2.2.2]
+  have hr : ∀ ac ∈ (List.range' 1 63).map (quantised q b), -1023 ≤ ac ∧ ac ≤ 1023 := by
+    intro ac hac
+    obtain ⟨z, hz, rfl⟩ := List.mem_map.mp hac
+    rw [List.mem_range'_1] at hz
+    exact quantised_range q b hq hv z (by omega) (by omega)
+  rw [decodeAC_acBits base hb tail _ 0 1 64 (by simp) (by omega) (by omega) (by omega) hr]
+  simp only [List.replicate_zero, List.nil_append, Option.some.injEq, Prod.mk.injEq, and_true, List.cons.injEq]
+  omega
+
+/-- `encodeBlock` refines `blockBits` -/
+theorem encodeBlock_emits (e : Encoder) (out : Array Nat) (c : Nat) (b : Block) :
+    Emits (e.setPrevDC c (div (b.getD 0 0) (((e.quants ((if c > 0 then 2 else 0) / 2)).getD 0 0 : Nat) : Int)), out)
+      (encodeBlock e out c b)
+      (blockBits (e.quants ((if c > 0 then 2 else 0) / 2)) (e.prevDC c) (if c > 0 then 2 else 0) b) := by
+  unfold encodeBlock blockBits
+  simp only
+  exact (emitHuffmanRun_emits _ out _ 0 _).trans (encodeACs_emits _ _ 0 _ _)
+
+
 end WuffsVerif.Jpeg.Huff
